@@ -9,6 +9,8 @@ import AfkakProofs.BrokerClient.Equiv
 import AfkakProofs.BrokerClient.Short
 import AfkakProofs.BrokerClient.Reent06
 import AfkakProofs.BrokerClient.Term
+import AfkakProofs.BrokerClient.Deliver
+import AfkakProofs.BrokerClient.Partition
 import AfkakProps.Open.C06
 /-!
 # C06 — each request completes exactly once, with the response bearing its own id
@@ -45,9 +47,12 @@ theorem C06_at_most_once (cfg : Cfg) (host port : Nat) (evs : List Ev) :
     (firedOf (trace cfg (St.init host port) evs)).Nodup :=
   C06_at_most_once_of_accepted _ (C06_monitor_sound cfg host port evs)
 
-/-- Exactly once: after any event list, the Deferreds handed out so far (serials `< nmake`) are
-    partitioned into those still outstanding (in the table, not cancelled) and those that have
-    fired, and the latter fired once. -/
+/-- "Exactly once" as a safety statement — at most once + never orphaned: after any event list, the
+    Deferreds handed out so far (serials `< nmake`) are partitioned into those still outstanding (in
+    the table, not cancelled) and those that have fired, and the latter fired once.  That an
+    outstanding request DOES complete is `C06_delivery` (its reply arrives), `C06_causes` (cancel,
+    failed write, no-reply write) and `C06_close_completes_all` (close); that the connection it waits
+    on is re-established is C10.  There is no fairness-quantified liveness theorem. -/
 theorem C06_exactly_once (cfg : Cfg) (host port : Nat) (evs : List Ev) :
     let s := run cfg (St.init host port) evs
     let F := firedOf (trace cfg (St.init host port) evs)
@@ -181,6 +186,55 @@ theorem C06_oversize (fs : List Bytes) (hf : ∀ f ∈ fs, f.length < 2 ^ 31) (a
   exact ⟨h1, h2⟩
 
 
+/-- Completion at `close()`: in every run that ends closed, every Deferred handed out has fired (exactly once,
+    by `C06_exactly_once`). -/
+theorem C06_close_completes_all (cfg : Cfg) (host port : Nat) (evs : List Ev)
+    (hc : (run cfg (St.init host port) evs).closed = true) :
+    ∀ k, k < (run cfg (St.init host port) evs).nmake → k ∈ firedOf (trace cfg (St.init host port) evs) := by
+  intro k hk
+  obtain ⟨_, _, _, h4⟩ := C06_exactly_once cfg host port evs
+  have hs := sinv_run cfg (St.init host port) evs (sinv_init host port)
+  have he := hs.closedEmpty hc
+  have := h4 k hk
+  rw [he] at this
+  apply Classical.byContradiction
+  intro hn
+  have h' := this.mpr hn
+  simp at h'
+
+/-- Delivery (the positive half of "exactly once"): in any state (no reachability needed), connected and
+    reading, with `rq` live in the table: if the chunk completes a packet `f` carrying `rq`'s correlation id,
+    and no earlier packet completed by the same chunk carries that id or is too short to carry one, then
+    `rq`'s Deferred fires in THIS step with exactly the bytes of `f`. -/
+theorem C06_delivery (cfg : Cfg) (s : St) (rq : Req) (c : Nat) (chunk f : Bytes) (pre post : List Bytes)
+    (hrq : rq ∈ s.reqs) (hlive : rq.cancelled = false) (hp : s.proto = some c) (hl : s.losing = false)
+    (hfr : (feed s.rbuf chunk).frames = pre ++ f :: post)
+    (hpre : ∀ b ∈ pre, ∃ j, corrId b = some j ∧ j ≠ rq.id) (hf : corrId f = some rq.id) :
+    Ob.fire rq.serial rq.id (.ok f) ∈ (step cfg s (.bytesIn chunk)).2 := by
+  have hd := handleFrames_delivers rq f post pre s hrq hlive hpre hf
+  simp only [step, hp, hl, Bool.false_eq_true, if_false, hfr]
+  split
+  · exact List.mem_append_left _ hd
+  · split
+    · exact List.mem_append_left _ hd
+    · exact hd
+
+/-! `C06_delivery` is not vacuous: request 5 is live on connection 0, the chunk completes its reply. -/
+example : let s := run ⟨fun _ => 1⟩ (St.init 1 9092) [.make 5 true, .connOk]
+    ({ serial := 0, id := 5, expect := true, sent := true, cancelled := false } : Req) ∈ s.reqs ∧ s.proto = some 0 ∧
+    s.losing = false ∧ (feed s.rbuf [0, 0, 0, 4, 0, 0, 0, 5]).frames = [] ++ [0, 0, 0, 5] :: [] ∧
+    corrId [0, 0, 0, 5] = some 5 := by decide +kernel
+
+/-- Chunking independence, general form: feeding the chunks one at a time (from an empty buffer) completes
+    exactly the packets, in order, and reaches `lengthLimitExceeded` exactly when, feeding their
+    concatenation as one chunk does — for ALL byte strings, not only streams of whole legal frames. -/
+theorem C06_all_chunkings (chunks : List Bytes) :
+    (feedAll [] chunks).frames = (feed [] chunks.flatten).frames ∧
+    (feedAll [] chunks).exceeded = (feed [] chunks.flatten).exceeded := by
+  obtain ⟨h1, h2, _⟩ := feedAllWith_eq_parse Afkak.Consts.kafkaMaxLength chunks [] (stuck_nil _)
+  simp only [feedAll, feed, feedWith_eq_parse, List.nil_append] at *
+  exact ⟨h1, h2⟩
+
 /-- A packet too short to carry a correlation id (0–3 bytes; `get_response_correlation_id` raises
     `BufferUnderflowError` out of `dataReceived`, the reactor drops the connection).  Like an over-long
     prefix this terminates the connection, and it FAILS nobody: every request that is not cancelled and
@@ -290,6 +344,20 @@ theorem C06_reentrant_terminates (cfg : Cfg) (host port : Nat) (evs : List Afkak
       ∀ t ∈ Afkak.BrokerClientR.traceRWith cfg fuel (Afkak.BrokerClientR.StR.init host port) evs,
         Afkak.BrokerClientR.ObR.fuelOut ∉ t.2 :=
   Afkak.BrokerClientR.fuel_suffices cfg evs _
+
+/-- "Exactly once" under RE-ENTRANT callbacks (and the stubborn / synchronous endpoints): at the end of
+    every run of the re-entrant model in which the fuel sufficed — and some amount always does
+    (`C06_reentrant_terminates`) — the Deferreds handed out are partitioned into those that fired,
+    each exactly once in the recorded trace, and those still in the table and not cancelled: nothing
+    is orphaned, nothing fires twice, whatever the callbacks did. -/
+theorem C06_reentrant_partition (cfg : Cfg) (fuel host port : Nat) (evs : List Afkak.BrokerClientR.EvR)
+    (hfuel : ∀ t ∈ Afkak.BrokerClientR.traceRWith cfg fuel (Afkak.BrokerClientR.StR.init host port) evs,
+      Afkak.BrokerClientR.ObR.fuelOut ∉ t.2) :
+    let s := Afkak.BrokerClientR.runRWith cfg fuel (Afkak.BrokerClientR.StR.init host port) evs
+    let F := Afkak.BrokerClientR.firedR (Afkak.BrokerClientR.traceRWith cfg fuel (Afkak.BrokerClientR.StR.init host port) evs)
+    F.Nodup ∧ (∀ k ∈ F, k < s.core.nmake) ∧
+    (∀ k, k < s.core.nmake → ((∃ r ∈ s.core.reqs, r.serial = k ∧ r.cancelled = false) ↔ k ∉ F)) :=
+  Afkak.BrokerClientR.partitionR cfg fuel host port evs hfuel
 
 /-- C06 with RE-ENTRANT callbacks, unconditionally (formerly the open statement): for every
     configuration and every event list of the re-entrant model — callbacks that are any finite lists
@@ -424,6 +492,9 @@ C06_monitor_sound
 C06_at_most_once_of_accepted
 C06_at_most_once
 C06_exactly_once
+C06_close_completes_all
+C06_delivery
+C06_all_chunkings
 C06_causes
 C06_own_response
 C06_no_crosstalk
@@ -438,6 +509,7 @@ C06_bootstrap_no_crosstalk_partial
 C06_reentrant_model_conservative
 C06_reentrant_partial
 C06_reentrant_terminates
+C06_reentrant_partition
 C06_reentrant
 -/
 /- OPEN_STATEMENTS
